@@ -55,7 +55,7 @@ class Grammar:
             raise AnalysisError(f"terminal {name} not found in the grammar of {self.module.name}")
         t = self.terminals[name]
         if t.parsed is None:
-            t.parsed = regexlang.parse(t.regexp)
+            t.parsed = regexlang.parse(t.regexp, int(self.lark_kwargs.get("g_regex_flags", 0) or 0))
         return t
 
 
@@ -95,6 +95,17 @@ def load(model: SrcModel, modname: str) -> Grammar:
     for kw in call.keywords:
         if kw.arg is None:
             raise Unsupported(f"{modname}: Lark(**kwargs)")
+        if kw.arg == "g_regex_flags":
+            import re as _re
+
+            flags = 0
+            for part in ast.walk(kw.value):
+                if isinstance(part, ast.Attribute) and hasattr(_re, part.attr) and isinstance(getattr(_re, part.attr), int):
+                    flags |= int(getattr(_re, part.attr))
+                elif isinstance(part, ast.Constant) and isinstance(part.value, int):
+                    flags |= part.value
+            kwargs[kw.arg] = flags
+            continue
         try:
             kwargs[kw.arg] = ast.literal_eval(kw.value)
         except ValueError as err:
